@@ -209,7 +209,8 @@ package object
 
 // A proxied method call runs without the lock and takes it (through GetConverter) once per parameter / result.
 //@ func (*Proxy).call
-//@ props C09
+//@ props C09 C08
+//@ callpre[C08.call.variadic] Call: !(isVariadic && len(arg0) == numIn)
 //@ requires p != nil && m != nil && goTypeMutex != nil
 //@ requires[C09.unlocked] !ghost("lock.w", bool, goTypeMutex) && !ghost("lock.r", bool, goTypeMutex)
 //@ havoc Interface
